@@ -1102,37 +1102,7 @@ fn check_circuit(c: &CircCase) -> CaseResult {
 // ---------------------------------------------------------------------------
 // (c) shipped automata, serializer, deserializer fuzzing
 
-const MINIMAL_JWT: &str = r#"{
-    "iss" : "",
-    "sub" : "",
-    "nbf" : 0,
-    "exp" : 1,
-    "vc" : {
-       "credentialSubject" : {
-          "nationalId" : "id",
-          "familyName" : "fn",
-          "givenName" : "gn",
-          "publicKeyJwk" : {
-             "kty" : "",
-             "crv" : "",
-             "x" : "x",
-             "y" : "y"
-          },
-          "id" : "",
-          "birthDate" : "bd"
-       },
-       "type" : [],
-       "@context" : [],
-       "issuer" : "",
-       "credentialStatus" : {
-          "statusPurpose" : "",
-          "statusListIndex" : 3,
-          "id" : "",
-          "type" : "",
-          "statusListCredential" : ""
-       }
-    }
-}"#;
+use vp_circ::MINIMAL_JWT;
 
 #[derive(Clone, Debug, Serialize, Deserialize)]
 struct ShippedCase {
